@@ -31,7 +31,9 @@ RULE = (
     "larger grids; bands = all ordered pairs of {-1,0,nodes,mid-points,nextafter(node,+-inf),+inf}; peak_wavenumber on "
     "words x depths {NaN,inf,1000,10,0.5} (default band). Named restrictions: layout () evaluates one band per distinct "
     "in-band node set on a sparse word set; members whose default-band peak is at f=0 are left out of the wavenumber batch "
-    "(relative residual undefined). A case (grid, word, in-band node set) is non-trivial when the peak is defined and at "
+    "(relative residual undefined); the all-NaN word is kept out of the main batch (no defined peak) and is evaluated in a "
+    "second batch together with all other words on the bands that cover the whole grid or all but one node, where the "
+    "other members must still get their own peak. A case (grid, word, in-band node set) is non-trivial when the peak is defined and at "
     "least two in-band values are present; distinct cases are counted once (1d, time layout)."
 )
 ASSUMPTIONS = [
